@@ -8,6 +8,7 @@ import (
 	"errors"
 	"fmt"
 	"os"
+	"sort"
 	"strings"
 	"sync"
 	"testing"
@@ -50,6 +51,8 @@ type caller struct {
 	pan     interface{}
 
 	gate    chan decision
+	alias   bool   // f works on the value it is handed IN PLACE and the caller keeps (and later reuses) what f returned
+	kept    []*Val // alias mode: every value f returned during the current call
 	outHook func(out *Val) // sees the value a "put" is about to return (multi-switch driver)
 	mgate   chan struct{}  // multi-switch driver: parked in the mirror write until released
 }
@@ -66,6 +69,7 @@ func (c *caller) begin(ctx context.Context, cl kv.Client, key string, onEnter fu
 	op := c.op
 	c.mu.Lock()
 	c.st, c.entries, c.err, c.pan = stIdle, 0, nil, nil
+	c.kept = nil
 	c.mu.Unlock()
 	go func() {
 		var err error
@@ -90,25 +94,51 @@ func (c *caller) begin(ctx context.Context, cl kv.Client, key string, onEnter fu
 			c.mu.Lock()
 			c.st = stLeftF
 			c.mu.Unlock()
+			var inv *Val
+			if x != nil {
+				inv, _ = x.(*Val)
+			}
 			switch d.a {
 			case "same":
 				return x, d.rf, nil // the value f was handed, unchanged
 			case "put":
-				var inv *Val
-				if x != nil {
-					inv, _ = x.(*Val)
+				var out *Val
+				if c.alias && inv != nil {
+					// the usual shape of a dskit CAS function (ring lifecyclers): edit the value handed in and return it
+					inv.Items[[2]int{c.id, op}] = Item{Pos: inv.Live() + 1}
+					out = inv
+				} else {
+					out = WithTag(inv, c.id, op)
 				}
-				out := WithTag(inv, c.id, op)
+				if c.alias {
+					c.kept = append(c.kept, out)
+				}
 				if c.outHook != nil {
 					c.outHook(out)
 				}
 				return out, d.rf, nil
+			case "bad": // a value no store can take: the codec refuses it, and it is not a memberlist.Mergeable
+				if c.alias {
+					scribble(inv, c.id, op)
+				}
+				return unstorable{}, d.rf, nil
 			case "decline":
+				if c.alias {
+					scribble(inv, c.id, op) // f edited its input before it decided not to write: must not reach the store
+				}
 				return nil, d.rf, nil
 			default:
+				if c.alias {
+					scribble(inv, c.id, op)
+				}
 				return nil, d.rf, errF
 			}
 		})
+		// alias mode: the caller goes on using the values its f returned (they are its own); whatever the
+		// call did with them, the store must hold a copy
+		for _, v := range c.kept {
+			scribble(v, c.id, op)
+		}
 		if onReturn != nil {
 			onReturn(c, err)
 		}
@@ -117,6 +147,20 @@ func (c *caller) begin(ctx context.Context, cl kv.Client, key string, onEnter fu
 		c.mu.Unlock()
 	}()
 }
+
+type unstorable struct{}
+
+// scribble adds an entry no call of the specification ever writes (callers 90+): if it shows up in the
+// store, the store shares memory with a value it handed to f or was handed by f.
+func scribble(v *Val, c, op int) {
+	if v != nil {
+		v.Items[[2]int{90 + c, op}] = Item{Pos: 99}
+	}
+}
+
+// aliasMode: which callers run their f in place (see caller.alias). The state graphs are symmetric in
+// the callers, so every transition is executed in both modes; the seed swaps the roles.
+func aliasMode(id int) bool { return (int64(id)+abs.Seed())%2 == 1 }
 
 // ---------------------------------------------------------------------------------------------
 // spec -> code: behaviours of KVCas.tla replayed step by step.
@@ -133,6 +177,7 @@ type step struct {
 	Be    string   `json:"be,omitempty"` // setup record only
 	Sec   string   `json:"sec,omitempty"`
 	Limit int      `json:"limit,omitempty"`
+	N     int      `json:"n,omitempty"` // other: how many writes the other key has seen after this one
 }
 
 func norm(t [][3]int) [][3]int {
@@ -163,7 +208,7 @@ func (r *replayer) runBehaviour(t *testing.T, st *store, beh []step, key string)
 	}
 	cs := make([]*caller, nc+1)
 	for i := 1; i <= nc; i++ {
-		cs[i] = &caller{id: i, gate: make(chan decision)}
+		cs[i] = &caller{id: i, gate: make(chan decision), alias: aliasMode(i)}
 	}
 	fail := func(i int, s step, what string, got, want interface{}) {
 		r.res.Mismatch(abs.Mismatch{
@@ -189,6 +234,14 @@ func (r *replayer) runBehaviour(t *testing.T, st *store, beh []step, key string)
 				fail(i+1, s, "Get", map[string]interface{}{"val": gv, "err": fmt.Sprint(gerr, perr)}, norm(s.Val))
 				break
 			}
+			continue
+		}
+		if s.A == "other" { // a CAS on another key of the same store, through the same client; then List
+			if what, got, want := r.otherKey(ctx, st, key, s); what != "" {
+				fail(i+1, s, what, got, want)
+				break
+			}
+			r.covered["other"] = true
 			continue
 		}
 		if s.A == "tick" { // 1 s passes on the bubble clock: every sleeping caller re-reads and enters f again
@@ -313,6 +366,74 @@ func (r *replayer) runBehaviour(t *testing.T, st *store, beh []step, key string)
 	}
 }
 
+// otherKey: the n-th write to the sibling key key+"~o" (it shares every prefix with key). The call must see
+// exactly the sibling's own history and succeed at once, leave key alone (Get here and on the wrapped /
+// secondary stores), and List(key) must name exactly the keys that hold a value.
+func (r *replayer) otherKey(ctx context.Context, st *store, key string, s step) (string, interface{}, interface{}) {
+	ok := key + "~o"
+	want := [][3]int{}
+	for j := 1; j < s.N; j++ {
+		want = append(want, [3]int{9, j, j})
+	}
+	entries := 0
+	var seen [][3]int
+	err := st.client.CAS(ctx, ok, func(x interface{}) (interface{}, bool, error) {
+		entries++
+		seen, _ = asVal(x)
+		inv, _ := x.(*Val)
+		return WithTag(inv, 9, s.N), true, nil
+	})
+	if err != nil || entries != 1 {
+		return "CAS on the other key", fmt.Sprintf("err=%v, f entered %d times", err, entries), "nil, f entered once"
+	}
+	if !eqTriples(seen, want) {
+		return "value handed to f on the other key", seen, want
+	}
+	want = append(want, [3]int{9, s.N, s.N})
+	check := func(what string, get func(string) (interface{}, error), k string, w [][3]int) (string, interface{}, interface{}) {
+		got, gerr := get(k)
+		gv, perr := asVal(got)
+		if gerr != nil || perr != nil || !eqTriples(gv, w) {
+			return what, map[string]interface{}{"val": gv, "err": fmt.Sprint(gerr, perr)}, w
+		}
+		return "", nil, nil
+	}
+	direct := func(k string) (interface{}, error) { return st.client.Get(ctx, k) }
+	if a, b, c := check("Get of the other key", direct, ok, want); a != "" {
+		return a, b, c
+	}
+	if a, b, c := check("Get after a write to another key", direct, key, norm(s.Val)); a != "" {
+		return a, b, c
+	}
+	if st.inner != nil {
+		if a, b, c := check("Get on the wrapped store after a write to another key", st.inner, key, norm(s.Val)); a != "" {
+			return a, b, c
+		}
+		if a, b, c := check("Get of the other key on the wrapped store", st.inner, ok, want); a != "" {
+			return a, b, c
+		}
+	}
+	if st.second != nil {
+		if a, b, c := check("secondary store after a write to another key", st.second, key, norm(s.Mir)); a != "" {
+			return a, b, c
+		}
+		if a, b, c := check("other key on the secondary store", st.second, ok, want); a != "" {
+			return a, b, c
+		}
+	}
+	keys, lerr := st.client.List(ctx, key)
+	sort.Strings(keys)
+	wantKeys := []string{}
+	if len(s.Val) > 0 {
+		wantKeys = append(wantKeys, key)
+	}
+	wantKeys = append(wantKeys, ok)
+	if lerr != nil || strings.Join(keys, " ") != strings.Join(wantKeys, " ") {
+		return "List", fmt.Sprintf("%v err=%v", keys, lerr), wantKeys
+	}
+	return "", nil, nil
+}
+
 func describe(st int, err error) string {
 	switch st {
 	case stInF:
@@ -391,7 +512,7 @@ func doReplay(t *testing.T, res *abs.Result) {
 					if r.corrupt != "" && r.nthCase == 17 {
 						beh = corruptBehaviour(beh, r.corrupt)
 					}
-					r.runBehaviour(t, st, beh, fmt.Sprintf("%s-%d", strings.ReplaceAll(variant, "/", "_"), r.nkeys))
+					r.runBehaviour(t, st, beh, fmt.Sprintf("%s-%d.", strings.ReplaceAll(variant, "/", "_"), r.nkeys)) // "." ends the number: no key is a prefix of another behaviour's
 					res.Cases++
 					r.perVar[variant]++
 					if nontrivial(beh) {
